@@ -7,10 +7,12 @@ import (
 	"errors"
 	"fmt"
 	"math/rand"
+	"net/http/httptest"
 	"net/url"
 	"sync"
 	"time"
 
+	controllerv1 "github.com/metrico/qryn/reader/controller"
 	rmodel "github.com/metrico/qryn/reader/model"
 	"github.com/metrico/qryn/reader/prof"
 	"github.com/metrico/qryn/reader/prof/parser"
@@ -20,6 +22,8 @@ import (
 	wmodel "github.com/metrico/qryn/writer/model"
 	"github.com/metrico/qryn/writer/utils/numbercache"
 	"github.com/metrico/qryn/writer/utils/unmarshal"
+
+	"google.golang.org/protobuf/proto"
 
 	"verif/harness/engines/chsql"
 	"verif/harness/engines/gen"
@@ -296,6 +300,38 @@ func (f *sqlFeed) service(w window) (*prof.FlameGraph, error) {
 		return nil, err
 	}
 	if res == nil || res.Flamegraph == nil {
+		return nil, errors.New("no flame graph in the response")
+	}
+	return res.Flamegraph, nil
+}
+
+// serviceHTTP asks through the production controller (protobuf body, as a Pyroscope client does), with the
+// request's max_nodes set when maxNodes > 0.
+func (f *sqlFeed) serviceHTTP(w window, maxNodes int64) (*prof.FlameGraph, error) {
+	f.err = nil
+	req := &prof.SelectMergeStacktracesRequest{ProfileTypeID: w.typeID, LabelSelector: w.selector, Start: w.from.UnixMilli(), End: w.to.UnixMilli()}
+	if maxNodes > 0 {
+		req.MaxNodes = &maxNodes
+	}
+	b, err := proto.Marshal(req)
+	if err != nil {
+		return nil, err
+	}
+	hr := httptest.NewRequest("POST", "/querier.v1.QuerierService/SelectMergeStacktraces", bytes.NewReader(b))
+	hr.Header.Set("Content-Type", "application/proto")
+	rec := httptest.NewRecorder()
+	(&controllerv1.ProfController{ProfService: f.svc}).SelectMergeStackTraces(rec, hr)
+	if rec.Code != 200 {
+		if f.err != nil {
+			return nil, f.err
+		}
+		return nil, fmt.Errorf("status %d: %s", rec.Code, rec.Body.String())
+	}
+	var res prof.SelectMergeStacktracesResponse
+	if err := proto.Unmarshal(rec.Body.Bytes(), &res); err != nil {
+		return nil, err
+	}
+	if res.Flamegraph == nil {
 		return nil, errors.New("no flame graph in the response")
 	}
 	return res.Flamegraph, nil
